@@ -11,25 +11,26 @@ Open Scope Z_scope.
 Definition edp (q tau : Z) : fparams := {| fm := "EDIT_DISTANCE"; ft := PInt tau; fq := q |}.
 
 (* ------------------------------------------------------------------ *)
-(* the generated functions at "EDIT_DISTANCE" (any threshold value)    *)
+(* the generated functions at "EDIT_DISTANCE" (any threshold value): the threshold enters  *)
+(* only through int(floor(threshold)) (source repair: float thresholds are normalised)     *)
 
 Lemma get_lb_ed n t :
-  get_size_lower_bound n (PStr "EDIT_DISTANCE") t = py_sub n t.
+  get_size_lower_bound n (PStr "EDIT_DISTANCE") t = py_sub n (py_int (py_floor t)).
 Proof. reflexivity. Qed.
 
 Lemma get_ub_ed n t :
-  get_size_upper_bound n (PStr "EDIT_DISTANCE") t = py_add n t.
+  get_size_upper_bound n (PStr "EDIT_DISTANCE") t = py_add n (py_int (py_floor t)).
 Proof. reflexivity. Qed.
 
 Lemma get_pl_ed n t q :
   get_prefix_length (PInt n) (PStr "EDIT_DISTANCE") t q =
-  if n =? 0 then PInt 0 else py_min (py_add (py_mul q t) (PInt 1)) (PInt n).
+  if n =? 0 then PInt 0 else py_min (py_add (py_mul q (py_int (py_floor t))) (PInt 1)) (PInt n).
 Proof. destruct n; reflexivity. Qed.
 
 Lemma get_ot_ed a b t q :
   get_overlap_threshold a b (PStr "EDIT_DISTANCE") t q =
   py_sub (py_add (py_sub (py_max (py_sub (py_add a q) (PInt 1)) (py_sub (py_add b q) (PInt 1))) q)
-                 (PInt 1)) (py_mul q t).
+                 (PInt 1)) (py_mul q (py_int (py_floor t))).
 Proof. reflexivity. Qed.
 
 Lemma py_min_int a b : py_min (PInt a) (PInt b) = PInt (Z.min a b).
@@ -59,7 +60,7 @@ Proof.
   intros Ht Hq Hn. unfold g_pl, edp. cbn [fm ft fq]. rewrite get_pl_ed.
   destruct (Z.eqb_spec n 0) as [->|Hne].
   - f_equal. assert (0 <= q * tau) by (apply Z.mul_nonneg_nonneg; lia). lia.
-  - change (py_add (py_mul (PInt q) (PInt tau)) (PInt 1)) with (PInt (q * tau + 1)).
+  - change (py_add (py_mul (PInt q) (py_int (py_floor (PInt tau)))) (PInt 1)) with (PInt (q * tau + 1)).
     apply py_min_int.
 Qed.
 
